@@ -294,6 +294,25 @@ def oracle(ctx):
         if got != want:
             res.oracle_failures.append(dict(op=op, input=text, impl_output=str(av)[:500],
                                             oracle_expectation=f'{key} ({"single-valued" if kind == "str" else "boolean" if kind == "bool" else "all values"}) after {hist}: {flag} {want}, got {got}'))
+    # a list key whose items are rendered one by one into name=value annotations (.kube AutoUpdate=[container/]policy): each item on its
+    # own, whatever came before it
+    aops, ameta = [], []
+    for _ in range(120 if ctx.thorough else 30):
+        items = [rnd.choice(['registry', 'local', 'app/registry', 'db/local', 'web/registry']) for _ in range(rnd.randint(1, 4))]
+        if rnd.random() < 0.3:
+            items.insert(rnd.randrange(len(items) + 1), '')
+        text = '[Kube]\nYaml=/k.yaml\n' + ''.join(rnd.choice([f'AutoUpdate={it}\n', f'[Kube]\nAutoUpdate={it}\n']) for it in items)
+        aops.append(f'convert\t0\t0\t{hx("/q/au.kube")}\t{hx(text)}')
+        ameta.append((items, text))
+    for (items, text), op, av in zip(ameta, aops, c02.argv(ctx, ctx.impl(aops))):
+        if av is None:
+            continue
+        res.oracle_evals += 1
+        eff = ref_list(items)
+        want = sorted(('io.containers.autoupdate/' + it.split('/')[0] + '=' + it.split('/')[1]) if '/' in it else 'io.containers.autoupdate=' + it for it in eff)
+        got = sorted(av[i + 1] for i in range(len(av) - 1) if av[i] == '--annotation' and av[i + 1].startswith('io.containers.autoupdate'))
+        if got != want:
+            res.oracle_failures.append(dict(op=op, input=text, impl_output=str(got), oracle_expectation=f'AutoUpdate items {eff} → annotations {want}'))
     # the effective value is also what *other* units see: naming keys with a history (two values; value, reset, value), and a
     # unit that refers to the one that has the key — its command carries the effective name, never a discarded one
     import props.c04 as c04
